@@ -838,8 +838,10 @@ class NodeFor:
         }
         try:
             result = self.evaluateLoop(environment)
-        except CklRuntimeError:
+        except (CklRuntimeError, CklSyntaxError):
             # a loop aborted by an error does not leave its variables behind
+            # (a syntax error at run time: the body required a module that
+            # does not parse)
             for identifier in self.identifiers:
                 if identifier in environment.getLocalSymbols():
                     environment.remove(identifier)
@@ -884,7 +886,7 @@ class NodeFor:
                     else:
                         for i in range(len(self.identifiers)):
                             environment.remove(self.identifiers[i])
-            except CklRuntimeError:
+            except (CklRuntimeError, CklSyntaxError):
                 raise
             except Exception:
                 raise CklRuntimeError(
